@@ -121,3 +121,16 @@ func init() {
 		Runs: []Run{{Pkg: hp + "c05", Variant: "real"}},
 	}
 }
+
+func init() {
+	specs["C06"] = &Spec{
+		Title: "Fresh CSPRNG secrets per file; no key and nonce pair is reused",
+		Level: "exploration",
+		LevelText: "All process histories of 1..2 (quick) / 1..3 (thorough) Encrypt calls over 24 recipient lists (including one recipient value used several times within and across calls) x plaintexts run with crypto/rand.Reader replaced by a logging, never-repeating tape. Every secret observable in the outputs (file key via reference unwrap, payload nonce, each ephemeral secret via its public share, scrypt salt) must be exactly one tape draw of its own length, pairwise distinct draws within the whole history; must change with the tape seed and not with the plaintext; every payload chunk must open under (counter i, final only on the last) and under no aliasing nonce (i mod 256, i mod 65536, neighbours, all small counters). Real and scaled build (6- and 258-chunk payloads).",
+		LevelNote: "randomness quality of the OS CSPRNG is out of scope: the check shows where secrets come from and that none is shared, constant or input-derived. math/rand output can never match a tape draw, so a non-CSPRNG source fails the first oracle.",
+		Technique: "bounded-exhaustive enumeration of call histories on the implementation under a deterministic CSPRNG tape, value-tracing oracle",
+		Rule: "enumerate histories of Encrypt calls; oracle traces every secret by value to a distinct tape draw, compares runs under two seeds and two plaintexts, and checks every chunk nonce with the reference AEAD. distinct_nontrivial counts distinct histories.",
+		Assumptions: commonAssume,
+		Runs: []Run{{Pkg: hp + "c06", Variant: "real"}, {Pkg: hp + "c06", Variant: "scaled16", Optional: true}},
+	}
+}
